@@ -724,7 +724,9 @@ func TaskUpdates(ctx context.Context, pg wpg.Conn) ([]TaskUpdate, error) {
 type Manager struct {
 	ctx     context.Context
 	running sync.Mutex
-	restart chan struct{}
+
+	restartMut sync.Mutex
+	restart    chan struct{}
 	tasks   []*Task
 	updates chan uint64
 	pgp     *pgxpool.Pool
@@ -745,10 +747,10 @@ func (tm *Manager) Updates() uint64 {
 	return <-tm.updates
 }
 
-func (tm *Manager) runTask(t *Task) {
+func (tm *Manager) runTask(t *Task, restart chan struct{}) {
 	for {
 		select {
-		case <-tm.restart:
+		case <-restart:
 			slog.InfoContext(t.ctx, "restart-task")
 			return
 		default:
@@ -778,7 +780,15 @@ func (tm *Manager) runTask(t *Task) {
 // Ensures all running tasks stop
 // and calls [Manager.Run] in a new go routine.
 func (tm *Manager) Restart() error {
-	close(tm.restart)
+	// one restart at a time: the channel is closed once per generation
+	tm.restartMut.Lock()
+	defer tm.restartMut.Unlock()
+	select {
+	case <-tm.restart:
+		// already closed: the previous reload failed and installed no new generation
+	default:
+		close(tm.restart)
+	}
 	ec := make(chan error)
 	go tm.Run(ec)
 	return <-ec
@@ -800,15 +810,18 @@ func (tm *Manager) Run(ec chan error) {
 		ec <- fmt.Errorf("loading tasks: %w", err)
 		return
 	}
+	// install the new generation's channel before reporting success:
+	// the next Restart must close this one, not the previous one
+	tm.restart = make(chan struct{})
 	close(ec)
 
-	tm.restart = make(chan struct{})
 	var wg sync.WaitGroup
+	restart := tm.restart
 	for i := range tm.tasks {
 		i := i
 		wg.Add(1)
 		go func() {
-			tm.runTask(tm.tasks[i])
+			tm.runTask(tm.tasks[i], restart)
 			wg.Done()
 		}()
 	}
